@@ -64,7 +64,12 @@ def C02(tier):
         dict(module="Select", name="MC_Select",
              cfg=dict(constants=dict(FIX, N=q(tier, 5, 6), NMin=1, OutOfRange=False, Emit=False),
                       invariants=["TypeOK", "BagInv", "SandwichInv", "WantInv", "DoneOK", "PanicIffOutOfRange"],
-                      properties=["Terminates"], view="view")),
+                      properties=["Terminates", "RefinesProof"], view="view")),
+        # every array length, position and pivot sequence: the invariant of SelectAlg (the wanted position stays inside the
+        # window, never "panic", sandwich invariant, arrangement clause at return) is proved inductive by TLAPS from the
+        # partition contract (itself proved in PartitionProof); MC_Select checks that Select refines SelectAlg
+        dict(engine="tlaps", module="SelectProof", name="TLAPS_SelectProof", deps=["SelectAlg"]),
+        dict(engine="tlaps", module="PartitionProof", name="TLAPS_PartitionProof", deps=["PartitionAlg"]),
         dict(module="Bulk", name="MC_Bulk",
              cfg=dict(constants=dict(FIX, N=q(tier, 4, 5), NMin=1, MaxReq=q(tier, 3, 3), OutOfRange=False, DebugAssertions=True, Emit=False),
                       invariants=["BagInv", "FrameInv", "DoneOK", "PanicIffOutOfRange"], properties=["Terminates"], view="view")),
